@@ -210,6 +210,14 @@ def _encode_batch(items):
 NET_HRP = {"mainnet": b"bc", "testnet": b"tb", "regtest": b"bcrt"}
 
 
+class CliEmittedOnRefusal(Exception):
+    """the command refused its input but wrote to stdout (common.err_kind: "Violation", never agrees)"""
+
+
+class CliMalformed(Exception):
+    """the command's stdout is not one of its two documented JSON answers"""
+
+
 def _cli_refused(r):
     rc = r["rc"]
     return r["exc"] is not None or (isinstance(rc, str) and rc.startswith("ERROR")) or (isinstance(rc, int) and rc != 0)
@@ -220,7 +228,7 @@ def _cli_raise(r):
     error kind a library call would); a refusal that wrote to stdout is a value no model result can equal"""
     import builtins
     if r["out"]:
-        return "REFUSED-BUT-WROTE-OUTPUT rc=%r out=%r" % (r["rc"], r["out"][:200])
+        raise CliEmittedOnRefusal("rc=%r out=%r" % (r["rc"], r["out"][:200]))
     name = r["exc"] or "RuntimeError"
     klass = getattr(builtins, name, None)
     if not (isinstance(klass, type) and issubclass(klass, BaseException)) or name == "SystemExit":
@@ -229,7 +237,7 @@ def _cli_raise(r):
 
 
 def _cli_decode_report(s, extra):
-    """-> ("segwit", hrp, version, program) | ("bech32", hrp, payload) | raises | a "MALFORMED..." string"""
+    """-> ("segwit", hrp, version, program) | ("bech32", hrp, payload) | raises (CliMalformed for any other stdout)"""
     import json
     import cli
     r = cli.run_main(["bech32", "--decode"] + list(extra), stdin=s)
@@ -238,22 +246,22 @@ def _cli_decode_report(s, extra):
     try:
         d = json.loads(r["out"].decode("utf-8"))
     except Exception:
-        return "MALFORMED-OUTPUT %r" % (r["out"][:200],)
+        raise CliMalformed("%r" % (r["out"][:200],))
     if not r["out"].endswith(b"\n") or r["out"].count(b"\n") != 1:
-        return "MALFORMED-OUTPUT %r" % (r["out"][:200],)
+        raise CliMalformed("%r" % (r["out"][:200],))
     if isinstance(d, dict) and set(d) == {"network", "witness_version", "witness_program"}:
         if d["network"] not in NET_HRP or not isinstance(d["witness_version"], int) or isinstance(d["witness_version"], bool):
-            return "MALFORMED-OUTPUT %r" % (r["out"][:200],)
+            raise CliMalformed("%r" % (r["out"][:200],))
         try:
             return ("segwit", NET_HRP[d["network"]], d["witness_version"], bytes.fromhex(d["witness_program"]))
         except Exception:
-            return "MALFORMED-OUTPUT %r" % (r["out"][:200],)
+            raise CliMalformed("%r" % (r["out"][:200],))
     if isinstance(d, dict) and set(d) == {"hrp", "payload"}:
         try:
             return ("bech32", d["hrp"].encode("utf-8"), bytes.fromhex(d["payload"]))
         except Exception:
-            return "MALFORMED-OUTPUT %r" % (r["out"][:200],)
-    return "MALFORMED-OUTPUT %r" % (r["out"][:200],)
+            raise CliMalformed("%r" % (r["out"][:200],))
+    raise CliMalformed("%r" % (r["out"][:200],))
 
 
 def _cli_segwit(s, extra):
@@ -262,7 +270,7 @@ def _cli_segwit(s, extra):
     try:
         v = _cli_decode_report(s, extra)
     except BaseException as e:  # noqa
-        if type(e).__name__ == "CaseTimeout":
+        if type(e).__name__ == "CaseTimeout" or type(e).__name__.startswith("Cli"):
             raise
         return None
     if isinstance(v, tuple) and v[0] == "segwit":
@@ -292,7 +300,9 @@ def _cli_encode(hrp, data, wv, pr, fmt):
     import cli
     fl, stdin = _cli_stdin(data, fmt)
     argv = ["bech32", "--hrp", hrp.decode("ascii")]
-    if wv is not None:
+    if wv is not None and wv < 0:
+        argv += ["--wv=%d" % wv]          # "-1" on its own would be taken for the -1 option
+    elif wv is not None:
         argv += ["--wv" if wv % 2 else "--witness-version", str(wv)]
     if pr:
         argv += ["-P"]
@@ -346,12 +356,9 @@ def model_call(c):
     return ("c06_" + op, a)
 
 
-# KNOWN_FINDINGS.txt matchers
-KNOWN = {
-    # `bits bech32 --hrp H --wv V` never passes the Bech32m constant: for V >= 1 it differs from segwit_addr
-    "cli-bech32-encode-v1plus": lambda c: c["op"] == "cli_bech32_segwit_addr" and isinstance(c["args"][1], int)
-    and c["args"][1] >= 1,
-}
+# KNOWN_FINDINGS.txt matchers: none (the command line encoder defect for versions >= 1 was repaired by 442ffd4;
+# its witness corpus/c06/cli-bech32-encode-v1plus.json is now a regression input of gen_cases)
+KNOWN = {}
 
 
 # ---------------------------------------------------------------------------------------------------
@@ -689,6 +696,20 @@ def gen_cases(rng, tier):
                                 (b"a" * 83, b"", None, False, "raw"), (b"a" * 84, b"", None, False, "raw"),
                                 (b"BC", rng.randbytes(20), 0, False, "raw"), (b"b~", rng.randbytes(5), 3, True, "x")]:
         out.append(case("cli-enc-edge", "cli_bech32_encode", h, d, wv, pr, fmt, strict=True))
+    for v in (-1, -2, -32, 17, 18, 31, 32, 255):
+        for net in NETS:
+            out.append(case("cli-enc-version-out", "cli_bech32_segwit_addr", rng.randbytes(rng.choice([20, 32])), v, net,
+                            rng.choice(["raw", "hex"])))
+            out.append(case("cli-enc-version-out", "cli_bech32_encode", NET_HRP[net], rng.randbytes(20), v, False, "raw"))
+    # regression inputs of repaired defects (former KNOWN_FINDINGS witnesses): must agree now
+    import glob
+    import json
+    import os
+    from common import VERIF, case_from_json
+    for wpath in sorted(glob.glob(os.path.join(VERIF, "corpus", "c06", "*.json"))):
+        wc = case_from_json(json.load(open(wpath)))
+        wc["cls"] = "regression-" + os.path.basename(wpath)[:-5]
+        out.append(wc)
 
     # ---------------- volume: random mutants of valid addresses, in batches ----------------
     nmut = 120000 if T else 8000
@@ -949,9 +970,10 @@ def _check_cli_decode(u, s, extra):
     if r:
         return r
     exp = ref_decode(s)
-    got = _cli_segwit(s, extra)
-    if isinstance(got, str):
-        return "bits bech32 --decode on %r: %s" % (s, got)
+    try:
+        got = _cli_segwit(s, extra)
+    except (CliEmittedOnRefusal, CliMalformed) as e:
+        return "bits bech32 --decode on %r: %s: %s" % (s, type(e).__name__, e)
     if got is not None:
         got = (bytes(got[0]), got[1], bytes(got[2]))
     if got != exp:
@@ -966,6 +988,8 @@ def _check_cli_decode(u, s, extra):
             want = None if cv is None else ("bech32", rb[0], bytes(cv))
         try:
             full = _cli_decode_report(s, extra)
+        except (CliEmittedOnRefusal, CliMalformed) as e:
+            return "bits bech32 --decode on %r: %s: %s" % (s, type(e).__name__, e)
         except BaseException as e:  # noqa
             if type(e).__name__ == "CaseTimeout":
                 raise
@@ -980,13 +1004,15 @@ def _check_cli_decode(u, s, extra):
 def _check_cli_encode(u, hrp, d, wv, pr, fmt):
     try:
         out = _cli_encode(hrp, d, wv, pr, fmt)
+    except (CliEmittedOnRefusal, CliMalformed) as e:
+        return "bits bech32 --hrp: %s: %s" % (type(e).__name__, e)
     except BaseException as e:  # noqa
         if wv is not None and hrp in NET_HRP.values() and prog_allowed(wv, len(d)):
             return "bits bech32 --hrp %s --wv %d refused an allowed %d-byte program (%s)" % (hrp.decode(), wv, len(d), type(e).__name__)
         return None
-    if isinstance(out, str):
-        return out
     tail = b"\n" if pr else b""
+    if wv is not None and not 0 <= wv <= 16:
+        return "bits bech32 --hrp %s --wv %d was not refused (witness versions are 0..16): wrote %r" % (hrp.decode(), wv, out)
     if wv is None:
         if len(hrp) + 1 + (8 * len(d) + 4) // 5 + 6 <= 90 and out != raw_encode(hrp.decode("latin-1"), _vals(d), BECH32) + tail:
             return "bits bech32 --hrp output %r is not the Bech32 encoding of the data" % (out,)
